@@ -276,6 +276,24 @@ func c07Reused(gi, l, class int) (key, detail string) {
 			err := a.GetFromAs(m, stun.AttrType(g.Attr))
 			return bytesOut(a, err)
 		}
+	case 0x0008:
+		// the integrity check with a key that lives in a caller buffer which held another key of the same length a
+		// moment ago (and was used for a check of another message then)
+		call = func(m *stun.Message, fresh bool) string {
+			key := append([]byte(nil), c07Key...)
+			if !fresh {
+				for i := range key {
+					key[i] ^= 0x5A
+				}
+				other := stun.MustBuild(stun.BindingRequest, stun.NewTransactionIDSetter(c07TID), stun.NewUsername("someone else"), stun.MessageIntegrity(key))
+				_ = stun.MessageIntegrity(key).Check(other)
+				copy(key, c07Key) // the caller's buffer now holds the key of this message
+			}
+			if err := stun.MessageIntegrity(key).Check(m); err != nil {
+				return "err:" + c07ErrClass(err)
+			}
+			return "ok"
+		}
 	default:
 		return "", ""
 	}
@@ -300,6 +318,49 @@ func c07Reused(gi, l, class int) (key, detail string) {
 	}
 	if o1 != o2 {
 		return "depends-on-destination-history/" + g.Name, fmt.Sprintf("%s on a %d-byte value (class %d): fresh destination gives %q, a destination used before gives %q", g.Name, l, class, clipS(o1), clipS(o2))
+	}
+	return "", ""
+}
+
+// c07InsideForEach: a message carries the getter's attribute twice, with different values, behind a neighbour. After
+// a lookup on the whole message (Get), the getter is applied from inside ForEach: visit i must give exactly what the
+// getter gives on a message that carries only value i.
+func c07InsideForEach(gi, l, class int) (key, detail string) {
+	g := c07Getters[gi]
+	if g.Attr == 0x0008 || g.Attr == 0x8028 {
+		return "", "" // the checkers cover a span, not one attribute
+	}
+	v1 := c07Value(g, l, class, nil)
+	v2 := c07Value(g, (l+5)%41, (class+1)%4, nil)
+	single := func(v []byte) string {
+		m := &stun.Message{Raw: c07Build([]c07Part{{Type: 0x7F01, Value: []byte{1, 2, 3}}, {Type: g.Attr, Value: v}}, c07TID, 4, func(int) byte { return 0 })}
+		if m.Decode() != nil {
+			return "undecodable"
+		}
+		return g.Call(m)
+	}
+	var want, got []string
+	if p := catch(func() {
+		v3 := c07Value(g, (l+11)%41, (class+2)%4, nil)
+		want = []string{single(v1), single(v2), single(v3), single(v1)}
+		// (three of them in a row behind a neighbour, and one more behind another neighbour)
+		m := &stun.Message{Raw: c07Build([]c07Part{{Type: 0x7F01, Value: []byte{1, 2, 3}}, {Type: g.Attr, Value: v1}, {Type: g.Attr, Value: v2}, {Type: g.Attr, Value: v3},
+			{Type: 0x7F02, Value: []byte{9}}, {Type: g.Attr, Value: v1}}, c07TID, 4, func(int) byte { return 0 })}
+		if m.Decode() != nil {
+			got = []string{"undecodable"}
+			return
+		}
+		_, _ = m.Get(stun.AttrType(g.Attr)) // a lookup on the whole message first
+		_ = g.Call(m)
+		_ = m.ForEach(stun.AttrType(g.Attr), func(mm *stun.Message) error {
+			got = append(got, g.Call(mm))
+			return nil
+		})
+	}); p != "" {
+		return "panic/" + g.Name, p
+	}
+	if fmt.Sprint(got) != fmt.Sprint(want) {
+		return "inside-foreach/" + g.Name, fmt.Sprintf("%s applied from inside ForEach to a message that carries the attribute four times (first values of %d and %d bytes): %q, applied to messages carrying one of them: %q", g.Name, len(v1), len(v2), got, want)
 	}
 	return "", ""
 }
@@ -492,6 +553,10 @@ func init() {
 						if key, detail := c07Reused(gi, l, class); key != "" {
 							c.Violation(key, detail, c07Case{Getter: gi, Len: l, Class: class, Pos: -7, Pos2: -1, Seed: c.Seed})
 						}
+						c.Eval(1)
+						if key, detail := c07InsideForEach(gi, l, class); key != "" {
+							c.Violation(key, detail, c07Case{Getter: gi, Len: l, Class: class, Pos: -8, Pos2: -1, Seed: c.Seed})
+						}
 						first := ""
 						var f0 [3]int
 						have := false
@@ -580,6 +645,12 @@ func init() {
 			c07Fillers[3] = func(i int) byte { return byte(int64(i)*131 + k.Seed*89 + 0x3c) }
 			c07TypeHi = []byte{0x00, 0xC0, 0x40, 0x80}[(k.Len+k.Class)%4]
 			g := c07Getters[k.Getter]
+			if k.Pos == -8 {
+				if key, detail := c07InsideForEach(k.Getter, k.Len, k.Class); key != "" {
+					c.Violation(key, detail, k)
+				}
+				return
+			}
 			if k.Pos == -7 {
 				if key, detail := c07Reused(k.Getter, k.Len, k.Class); key != "" {
 					c.Violation(key, detail, k)
